@@ -19,6 +19,11 @@ Writer/reader AGREEMENT rules decided from the syntax trees of `_convert_to_json
   R9  component coverage: on every feasible path of a container converter the converter of each component (element, key, value,
       field, point) is applied - or the converter that is skipped is the identity for every class the path's type guards admit
       (decided from that class's own _convert_to_json / _convert_from_json; float32/float64 are not: non-finite values travel as strings)
+  R10 call strings as a regular language: for each (ploidy, phased) class the set of ALL strings Call.__str__ can emit (literal text and
+      decimal numerals, holes bracketed by marker characters) is pushed through _tcall._convert_from_json by abstract execution over
+      regular languages (engines/c32strdec.py; every test of the reader splits the language, every position it computes is one more
+      marker); on every non-empty exit the reader must rebuild the class's ploidy, each allele as int() of exactly the numeral written
+      for it, and the class's phased flag, and must not raise.  A non-empty counter-language gives a shortest witness string (printed only).
 Does not decide: equality of the rebuilt values (e.g. numeric precision of float32 text).
 """
 from __future__ import annotations
@@ -26,6 +31,7 @@ from __future__ import annotations
 import ast
 from typing import Dict, List, Optional, Sequence, Set, Tuple
 
+from engines import c32strdec as SD
 from engines import pyfacts as pf
 from engines import wiresig as W
 from engines.common import AnalysisError, Ctx
@@ -36,12 +42,16 @@ META = dict(
          'per-key component converters, constructor-role correspondence (incl. type parameters carried by the value), float tokens, missing-aware recursion, '
          'freeze propagation, call-string tokens and ndarray order; path-sensitive component coverage (a component converter may only be skipped under a type guard '
          'that admits classes whose converter is the identity - guards are evaluated from the module\'s own class tables); purity of every converter (no state that '
-         'outlives the call is read back, or a memo keyed by every input of the remembered value). Every rule is a necessary condition of the round trip; value '
+         'outlives the call is read back, or a memo keyed by every input of the remembered value); call strings: the reader is decided against the whole regular language '
+         'of strings Call.__str__ emits, per (ploidy, phased) class (same ploidy, alleles taken from exactly the numerals written, same phased flag, no exception). '
+         'Every rule is a necessary condition of the round trip; value '
          'equality itself is not decided, hence level "other".',
-    note='Trusted: CPython ast; float(str(x)) round-trips nan/inf/-inf (CPython float.__str__ / float.__new__ contract); json maps None<->null. '
+    note='Trusted: CPython ast; float(str(x)) round-trips nan/inf/-inf (CPython float.__str__ / float.__new__ contract); json maps None<->null; str(int) of a '
+         'non-negative int is 0|[1-9][0-9]* and int() inverts it; the semantics of the str operations modelled in engines/c32strdec.py (indexing, slicing, find, split, partition, scan loops). '
          'Not decided: value equality after the round trip, numpy dtype conversions.',
     technique='static analysis: AST extraction of key tables, converter-call tables and token tables on both directions, compared symbolically; path enumeration with '
-              'type-guard evaluation over the module\'s class tables; def-use based state / memo-key analysis',
+              'type-guard evaluation over the module\'s class tables; def-use based state / memo-key analysis; abstract execution of the call-string reader over regular '
+              'languages with position markers (engines/c32strdec.py on engines/relang.py: products, complement, emptiness with shortest witness)',
     design_ref='DESIGN.md §3 C32',
 )
 
@@ -545,6 +555,65 @@ def _r6(ctx: Ctx, m: pf.Module, classes: Dict[str, ast.ClassDef]):
 
 
 # --------------------------------------------------------------------------------------
+# R10 call strings: the reader decided against the regular language of everything the writer emits
+# --------------------------------------------------------------------------------------
+
+
+def _r10(ctx: Ctx, m: pf.Module, classes: Dict[str, ast.ClassDef]) -> None:
+    cm = pf.load(CALL_F)
+    ctx.need('_tcall' in classes, 'anchor vanished: class _tcall')
+    ms = W.methods(classes['_tcall'])
+    ctx.need(TO in ms and FROM in ms, 'anchor vanished: _tcall JSON converters')
+    wb = W.body_wo_doc(ms[TO])
+    xw = W.param_names(ms[TO])[1]
+    # the wire form is str(value): Call.__str__ (an f-string / format of the value is the same function)
+    ctx.need(len(wb) == 1 and isinstance(wb[0], ast.Return) and wb[0].value is not None
+             and pf.nsrc(wb[0].value) in (f'str({xw})', f'{xw}.__str__()', "f'{" + xw + "}'", f"'{{}}'.format({xw})", f"'%s' % {xw}", f"'%s' % ({xw},)"),
+             f'_tcall.{TO} is not `return str({xw})`')
+    sfn = cm.func('Call.__str__')
+    forms = SD.writer_forms(sfn, f'{CALL_F}::Call.__str__')
+    vc = W.value_class('Call')
+    rfn = ms[FROM]
+    where = f'{F}::_tcall.{FROM}'
+    selfname = W.param_names(rfn)[0]
+    base_ms = W.methods(m.cls('HailType'))
+
+    def resolver(name: str):
+        """same-module helpers of the reader: methods of _tcall / HailType (not the converters themselves) and module-level functions"""
+        parts = name.split('.')
+        if len(parts) == 2 and parts[0] in (selfname, '_tcall'):
+            fdef = ms.get(parts[1]) or base_ms.get(parts[1])
+            if fdef is not None and not parts[1].startswith('_convert_') and isinstance(fdef, ast.FunctionDef):
+                static = 'staticmethod' in pf.decorator_names(fdef)
+                return (fdef, 0 if static or parts[0] != selfname else 1)
+            return None
+        if len(parts) == 1:
+            for st_ in m.tree.body:
+                if isinstance(st_, ast.FunctionDef) and st_.name == name:
+                    return (st_, 0)
+        return None
+
+    mk = lambda: SD.Decoder(rfn, where, lambda c: W.value_class_of_call(c) == 'Call', vc.params[:2], resolver)
+    ctx.need(vc.params[:2] == ['alleles', 'phased'], f'{CALL_F}::Call.__init__ parameters are {vc.params}')
+    n_exits = n_splits = 0
+    for (p, f), form in sorted(forms.items()):
+        cons = f'{F}::_tcall::wire strings of calls with ploidy {p}, {"phased" if f else "unphased"}'
+        holes = getattr(form, 'bad_holes', None)
+        if holes is not None:
+            ctx.bad('R10', cons, f'Call.__str__ renders a call with ploidy {p}, phased={f} as `{form.template()}`: alleles {holes} are on the wire, not each of '
+                                 f'{list(range(p))} exactly once - no reader can rebuild the call', cm.path, form.line)
+            continue
+        v = SD.check_class(mk, form)
+        n_exits += v.exits
+        n_splits += v.splits
+        msgs = list(dict.fromkeys(t for t, _ in v.problems))
+        ctx.check(not msgs, 'R10', cons, ' | '.join(msgs[:3]) + f' (wire form of the class: `{form.template()}`, numerals 0|[1-9][0-9]*)', m.path,
+                  v.problems[0][1] if v.problems else rfn.lineno, detail={'template': form.template(), 'reader_exits': v.exits, 'language_splits': v.splits})
+    ctx.unit('call_string_classes', len(forms))
+    ctx.unit('call_string_language_splits', n_splits)
+
+
+# --------------------------------------------------------------------------------------
 # R7 ndarray
 # --------------------------------------------------------------------------------------
 
@@ -987,6 +1056,10 @@ def run(ctx: Ctx) -> None:
                    '(type parameters such as self.reference_genome included)', 30)
     ctx.rule('R9', 'on every feasible path of a container converter each component converter is applied, or the skipped converter is the identity for every '
                    'class the path\'s type guards admit (float32/float64 are not: nan/inf travel as strings)', 15)
+    ctx.rule('R10', 'for each (ploidy, phased) class, every string Call.__str__ can emit (regular language, numerals 0|[1-9][0-9]*) is read back by '
+                    '_tcall._convert_from_json without raising, with the same ploidy, each allele taken from exactly the numeral written for it, and the same phased flag', 6)
+    ctx.assume('allele indices are non-negative ints: str() renders them as 0|[1-9][0-9]*; int() of such a numeral is the index; the alleles of an unphased diploid call are '
+               'sorted by Call.__init__, so either order of the two numerals rebuilds the same call')
     ctx.assume('float(str(x)) == x for nan/inf/-inf and str(x) of a non-finite float is one of nan, inf, -inf (CPython)')
     ctx.assume('every component position of a container (element, key, value, field, interval endpoint) may hold a missing value')
     m = pf.load(F)
@@ -1002,5 +1075,23 @@ def run(ctx: Ctx) -> None:
     ctx.unit('key_tables', nt)
     _r4(ctx, m, classes)
     _r5(ctx, m, classes)
-    _r6(ctx, m, classes)
     _r7(ctx, m, classes)
+    # call strings: R10 decides the reader against the whole language of the writer; R6 compares the token tables of the two sides.  Either may
+    # meet a shape it does not recognise: the other one still reports, and the decline is raised after both
+    deferred: List[str] = []
+    r10_done = False
+    try:
+        _r10(ctx, m, classes)
+        r10_done = True
+    except AnalysisError as e:
+        deferred.append(f'R10: {e}')
+    try:
+        _r6(ctx, m, classes)
+    except AnalysisError as e:
+        if r10_done:
+            # the token tables are a coarser view of what R10 has just decided for every string of every class
+            ctx.ok('R6', f'{F}::_tcall::call string tokens', {'not_tabulated': str(e), 'decided_by': 'R10'}, nontrivial=False)
+            ctx.info(f'{F}::_tcall: token tables of the call-string reader not extracted ({e}); the reader is decided by R10 on the whole wire language')
+        else:
+            deferred.append(f'R6: {e}')
+    ctx.need(not deferred, '; '.join(deferred))
